@@ -70,12 +70,13 @@ Lemma create_checksum_sem ext fuel hrp data spec :
   = Val (vints (bech32_create_checksum hrp data spec)).
 Proof.
   unfold sem_bech32__bech32_create_checksum, call, ast_bech32__bech32_create_checksum.
-  pystep. rewrite hrp_expand_sem. pystep.
-  change [VInt 0; VInt 0; VInt 0; VInt 0; VInt 0; VInt 0] with (map VInt [0; 0; 0; 0; 0; 0]).
-  unfold vints at 1. rewrite <- !map_app.
-  fold (vints ((bech32_hrp_expand hrp ++ data) ++ [0; 0; 0; 0; 0; 0])).
-  rewrite polymod_sem. pystep.
-  destruct spec; reflexivity.
+  destruct spec.
+  all: pystep; rewrite hrp_expand_sem; pystep.
+  all: change [VInt 0; VInt 0; VInt 0; VInt 0; VInt 0; VInt 0] with (map VInt [0; 0; 0; 0; 0; 0]).
+  all: unfold vints at 1; rewrite <- !map_app.
+  all: fold (vints ((bech32_hrp_expand hrp ++ data) ++ [0; 0; 0; 0; 0; 0])).
+  all: rewrite polymod_sem; pystep.
+  all: reflexivity.
 Qed.
 #[global] Arguments sem_bech32__bech32_create_checksum : simpl never.
 
